@@ -27,6 +27,8 @@ def run(tier):
     trs = S.pmap(S.run_session, PC.algo_cfgs(tier, n=100 if tier == "quick" else 200))
     chk.validate("Trace_Session.tla", "Trace_Session.cfg", trs, "algos", sigfn=sig, nontrivial=lambda t: F.count_mk(t) >= 3)
     chk.notes["algorithm_sessions"] = len(trs)
+    rt = PC.repo_test_traces(chk, tier)
+    chk.validate("Trace_Session.tla", "Trace_Session.cfg", rt, "repotests", sigfn=sig, chunk=20, nontrivial=lambda t: F.count_mk(t) >= 3)
     chk.assumptions = ["small-scope: exhaustive models use <= 17 cells, depth <= 4", "cells that become unreachable and unlisted can no longer be observed through the public getters"]
     return chk.finish(
         rule="MC: all interleavings of deepen/make_children(leaf, documented flag) on lattice models of the 5 classes; replay: TLC behaviours driven into the real classes with scripted RNG (x3 exact affine images); TV: random direct sessions and sessions of all algorithms.  A trace is non-trivial if it is accepted and contains >= 2-3 expansions after construction; distinct = distinct encoded event sequences.",
